@@ -33,6 +33,7 @@ def make_rbm(cfg, env, rng, scale=1.0):
         rbm = BinaryRBM(cfg["nv"], cfg["nh"], gpu=False)
     else:
         rbm = PurificationRBM(cfg["nv"], cfg["nh"], cfg["na"], gpu=False)
+    rbm = C.copied(rbm)
     for n, p in rbm.named_parameters():
         p.data = torch.tensor(rng.normal(0, scale, size=tuple(p.shape)), dtype=torch.double)
 
@@ -158,6 +159,7 @@ def sample_twice(seed=0):
 
 
 def replay(cfg, env):
+    C.VIA[0] = cfg.get("via")
     if cfg["rbm"] == "sample":
         f = sample_twice()
         return {"reproduced": bool(f), "failed_clauses": [(a, str(b)) for a, b in f[:3]], "cfg": cfg}
